@@ -802,6 +802,167 @@ fn gen_script(rng: &mut Rng, big: bool) -> Script {
     Script { qname: pick(rng), recs, edns: None }
 }
 
+//------------ names and strings at their length limits, read by every route ------------
+
+/// label lengths summing (with length octets and root) to `total` octets
+fn partition(rng: &mut Rng, total: usize) -> Vec<usize> {
+    let mut left = total - 1; // the root
+    let mut out = vec![];
+    let style = rng.below(4);
+    while left > 0 {
+        let max = (left - 1).min(63);
+        if max == 0 && out.is_empty() {
+            break;
+        }
+        if max == 0 {
+            // one octet cannot hold a label: lengthen a label that has room,
+            // or split a full one in two (63 + 1 + 1 = 31 + 1 + 32 + 1)
+            match out.iter_mut().find(|l| **l < 63) {
+                Some(l) => *l += 1,
+                None => {
+                    out.pop();
+                    out.push(31);
+                    out.push(32);
+                }
+            }
+            break;
+        }
+        let l = match style {
+            0 => max,                                   // few long labels
+            1 => 1 + rng.below(2) as usize,             // many short ones
+            2 => 1 + rng.below(max as u64) as usize,    // anything
+            _ => if rng.chance(1, 3) { max } else { 1 + rng.below(max.min(8) as u64) as usize },
+        }
+        .min(max);
+        out.push(l);
+        left -= l + 1;
+    }
+    out
+}
+
+fn label_octets(rng: &mut Rng, n: usize) -> Vec<u8> {
+    const ALPHA: &[u8] = b"abcdefghijklmnopqrstuvwxyzABCDEFGHIJKLMNOPQRSTUVWXYZ0123456789-_";
+    (0..n).map(|_| if rng.chance(1, 40) { rng.next() as u8 } else { *rng.pick(ALPHA) }).collect()
+}
+
+fn wire_name(rng: &mut Rng, lens: &[usize]) -> Vec<u8> {
+    let mut v = vec![];
+    for &l in lens {
+        v.push(l as u8);
+        v.extend(label_octets(rng, l));
+    }
+    v
+}
+
+fn rfix(t: u16, rdlen: usize) -> Vec<u8> {
+    let mut v = t.to_be_bytes().to_vec();
+    v.extend([0, 1, 0, 0, 0, 60]);
+    v.extend((rdlen as u16).to_be_bytes());
+    v
+}
+
+/// One message with a name of 250..259 octets (or character strings of up to
+/// 255) in a random place; every route of both codecs reads it.  Returns the
+/// `plain` event.
+fn plain_event(rng: &mut Rng, k: usize) -> Value {
+    // the place and the length follow a fixed schedule (every place gets
+    // 255, 256, 254, 257, 253, ... in turn); partition and octets are random
+    const LENS: [usize; 10] = [255, 256, 254, 257, 253, 252, 258, 251, 259, 250];
+    const KINDS: usize = 16;
+    let total = LENS[(k / KINDS) % LENS.len()];
+    let lens = partition(rng, total);
+    let mut name = wire_name(rng, &lens);
+    name.push(0);
+    let tail_a: Vec<u8> = [vec![0u8], rfix(1, 4), vec![1, 2, 3, 4]].concat();
+    let hdr = |qd: u16, an: u16, ar: u16| -> Vec<u8> {
+        let mut h = vec![0x12, 0x34, 0x80, 0];
+        h.extend(qd.to_be_bytes());
+        h.extend(an.to_be_bytes());
+        h.extend([0, 0]);
+        h.extend(ar.to_be_bytes());
+        h
+    };
+    let q0: Vec<u8> = vec![1, b'a', 0, 0, 1, 0, 1];
+    let kind = k % KINDS;
+    let (m, starts, probes, slot): (Vec<u8>, Vec<usize>, Vec<(usize, usize)>, String) = if kind == 0 {
+        // question name
+        let m = [hdr(1, 0, 0), name.clone(), vec![0, 1, 0, 1]].concat();
+        let e = 12 + name.len();
+        (m.clone(), vec![12], vec![(12, e), (12, m.len()), (12, e - 1)], "qn".into())
+    } else if kind == 1 {
+        // record owner
+        let m = [hdr(1, 1, 1), q0.clone(), name.clone(), rfix(1, 4), vec![1, 2, 3, 4], tail_a.clone()].concat();
+        let re = 19 + name.len() + 14;
+        (m.clone(), vec![19], vec![(19, m.len()), (19, re), (19, 19 + name.len()), (19, re - 1)], "own".into())
+    } else if kind == 2 {
+        // character strings
+        let t = *rng.pick(&[16u16, 13]);
+        let mut rd = vec![];
+        for _ in 0..(1 + rng.below(3)) {
+            let l = *rng.pick(&[255usize, 255, 254, 0, 1, 200]);
+            rd.push(l as u8);
+            let have = if rng.chance(1, 6) { l.saturating_sub(1) } else { l };
+            rd.extend(label_octets(rng, have));
+        }
+        let m = [hdr(1, 1, 1), q0.clone(), vec![1, b'c', 0], rfix(t, rd.len()), rd.clone(), tail_a.clone()].concat();
+        let re = 19 + 3 + 10 + rd.len();
+        (m.clone(), vec![19], vec![(19, m.len()), (19, re)], format!("str{}", t))
+    } else {
+        // inside RDATA; kind 15: completed by a pointer into a long question name
+        const SLOTS: &[(u16, &[u8], usize)] = &[
+            (2, &[], 0), (5, &[], 0), (12, &[], 0), (15, &[0, 10], 0), (6, &[], 21), (6, &[0], 20),
+            (17, &[], 1), (17, &[0], 0), (33, &[0, 1, 0, 2, 0, 80], 0), (39, &[], 0), (47, &[], 3), (46, &[0; 18], 3),
+        ];
+        let (t, pre, postn) = if kind == 15 { *rng.pick(SLOTS) } else { SLOTS[kind - 3] };
+        let post: Vec<u8> = match (t, postn) {
+            (47, _) => vec![0, 1, 64],
+            (46, _) => vec![9, 9, 9],
+            (6, 21) => [vec![0u8], vec![0; 20]].concat(),
+            (_, n) => vec![0; n],
+        };
+        if kind == 15 {
+            let qtotal = 254 + rng.below(2) as usize;
+            let qlens = partition(rng, qtotal);
+            let mut qn = wire_name(rng, &qlens);
+            qn.push(0);
+            // a pointer to the start of one of the question name's labels
+            let k = rng.below(qlens.len() as u64) as usize;
+            let target = 12 + qlens[..k].iter().map(|l| l + 1).sum::<usize>();
+            let suffix: usize = qlens[k..].iter().map(|l| l + 1).sum::<usize>() + 1;
+            // prefix so that the whole name has 253..257 octets (when that is possible)
+            let want = total.clamp(253, 257);
+            let plen = want.saturating_sub(suffix);
+            let mut nm = if plen >= 2 { let pl = partition(rng, plen + 1); wire_name(rng, &pl) } else { vec![] };
+            nm.extend([0xC0 | (target >> 8) as u8, target as u8]);
+            let rd = [pre.to_vec(), nm.clone(), post].concat();
+            let rs = 12 + qn.len() + 4;
+            let m = [hdr(1, 1, 1), qn, vec![0, 1, 0, 1], vec![0xC0, 12], rfix(t, rd.len()), rd.clone(), tail_a.clone()].concat();
+            let ns = rs + 12 + pre.len();
+            let re = rs + 12 + rd.len();
+            (m.clone(), vec![rs, ns], vec![(rs, re), (ns, ns + nm.len()), (12, m.len())], format!("ptr{}", t))
+        } else {
+            let rd = [pre.to_vec(), name.clone(), post].concat();
+            let m = [hdr(1, 1, 1), q0.clone(), vec![1, b'c', 0], rfix(t, rd.len()), rd.clone(), tail_a.clone()].concat();
+            let ns = 19 + 3 + 10 + pre.len();
+            let re = 19 + 3 + 10 + rd.len();
+            (m.clone(), vec![19, ns], vec![(19, m.len()), (19, re), (ns, ns + name.len()), (ns, re), (19, re - 1)], format!("rd{}", t))
+        }
+    };
+    let mask = wire_new::Mask::none();
+    let strip = |mut v: Value| {
+        if let Some(o) = v.as_object_mut() {
+            o.remove("acc");
+        }
+        v
+    };
+    let old = observe(|| wire_new::old_view(&m, &starts, &mask));
+    let new = observe(|| wire_new::new_view(&m, &starts, &mask));
+    let plain = wire_new::plain_view(&m, &probes, &mask);
+    json!({"ev": "plain", "slot": slot, "namelen": if kind == 2 { 0 } else { total }, "m": json_bytes(&m), "starts": starts,
+           "probes": probes.iter().map(|(a, b)| json!([a, b])).collect::<Vec<_>>(),
+           "old": strip(old), "new": strip(new), "plain": plain})
+}
+
 fn main() {
     if std::env::var("CODEC_DEBUG").is_err() {
         quiet_panics();
@@ -812,6 +973,13 @@ fn main() {
     let n: usize = args.get(3).and_then(|s| s.parse().ok()).unwrap_or(100);
     let mut rng = Rng::new(seed);
     let mut tw = TraceWriter::create(path);
+    // names and strings at their length limits through every reading route
+    {
+        let mut prng = Rng::new(seed ^ 0x5EED_11A1);
+        for k in 0..(n / 3).max(32) {
+            tw.event(plain_event(&mut prng, k));
+        }
+    }
     for i in 0..n {
         // every sixth script fills a small buffer until pushes fail
         if i % 6 == 5 {
